@@ -1,7 +1,22 @@
 #!/bin/sh
-# Builds the framework from files on disk only (offline).
+# Builds the framework from files on disk only (offline) and warms the Go build cache
+# (normal and -race) so that the checks' own rebuilds are incremental.
 set -e
 cd "$(dirname "$0")/.."
+V="$(pwd)"
 export GOFLAGS=-mod=mod GOPROXY=off GOSUMDB=off GOTOOLCHAIN=local
 (cd tools/rewrite && go build -o ../../bin/rewrite .)
 echo "setup: rewriter built"
+SCR="$(mktemp -d "${TMPDIR:-/var/tmp}/verifsetup.XXXXXX")"
+trap 'rm -rf "$SCR"' EXIT
+mkdir -p "$SCR/sim" "$SCR/race"
+(cd sim && tar cf - --exclude=./reftable .) | (cd "$SCR/sim" && tar xf -)
+bin/rewrite -src "${VERIF_REPO:-/repo}" -out "$SCR/sim/reftable" -access sim/access/sim_access.go.txt
+(cd "$SCR/sim" && go build -o "$SCR/simbin" ./cmd/sim)
+echo "setup: simulation binary builds"
+(cd sim && tar cf - --exclude=./reftable .) | (cd "$SCR/race" && tar xf -)
+bin/rewrite -plain -src "${VERIF_REPO:-/repo}" -out "$SCR/race/reftable" -access sim/access/sim_access.go.txt
+(cd "$SCR/race" && go build -race -o "$SCR/racebin" ./cmd/racer)
+echo "setup: race-detector binary builds"
+mkdir -p evidence out/replays
+echo "setup: done"
